@@ -37,8 +37,24 @@ def deviate(rng, cols):
     """One deviation from a conforming record."""
     cols = [dict(c) for c in cols]
     mut = []
-    kind = rng.choice(["value", "value", "value", "foreign", "drop", "extra", "swap-index", "rename", "mutate-value", "mutate-index", "mutate-key", "generic"])
+    kind = rng.choice(["value", "value", "value", "foreign", "drop", "extra", "swap-index", "rename", "mutate-value", "mutate-index", "mutate-key", "generic",
+                       "subclass", "subclass"])
     k = rng.randrange(len(cols))
+    if kind == "subclass":
+        # a column of a proper sub-class of the scheme's class (isinstance holds), holding the sub-class's null value or the same value
+        import maflib.column_types as CT
+        sch = impl.scheme_by_annotation(ANN)
+        cands = []
+        for j, c in enumerate(cols):
+            base = sch.column_class(c["key"])
+            subs = [n for n, o in vars(CT).items() if isinstance(o, type) and issubclass(o, base) and o is not base and not n.startswith("_")]
+            if subs:
+                cands.append((j, subs))
+        if cands:
+            j, subs = rng.choice(cands)
+            c = cols[j]
+            cols[j] = {"cls": rng.choice(subs), "key": c["key"], "value": rng.choice([{"t": "none"}, c["value"]]), "index": c["index"]}
+        return {"cols": cols, "mut": []}, kind
     if kind == "value":
         cols[k]["value"] = rng.choice(ODD_VALUES)
     elif kind == "foreign":
